@@ -90,4 +90,4 @@ def _laws(pi, ni):
     return ok
 
 
-PLIM = 90 if TIER == 'quick' else 4000
+PLIM = 60 if TIER == 'quick' else 4000
